@@ -6,7 +6,8 @@ CONSTANTS
   MaxFaults = 99
   MaxInject = 99
   FaultKinds = {"Lose", "Drop", "Dup", "Flip", "WrongSid", "WrongFrom", "Swap", "EarlyClose"}
-  InjectKinds = {"from", "sid"}
+  InjectKinds = {"from", "res", "sid"}
+  InjectElems = {"open", "data", "close"}
   Bursts = {}
   MaxHist = 99
 INVARIANT Done
